@@ -608,7 +608,24 @@ pub const HASH_FORMS: &[(&str, fn(Element) -> u64)] = &[
         aff(a).hash(&mut h);
         h.finish()
     }),
+    // containers hash through Hash::hash_slice, which a type may override: n copies of the element
+    ("Vec<Element> x1", |a| hash_of(&vec![a; 1])),
+    ("Vec<Element> x15", |a| hash_of(&vec![a; 15])),
+    ("Vec<Element> x16", |a| hash_of(&vec![a; 16])),
+    ("Vec<Element> x17", |a| hash_of(&vec![a; 17])),
+    ("Vec<Element> x300", |a| hash_of(&vec![a; 300])),
+    ("[Element; 32]", |a| hash_of(&[a; 32])),
+    ("Vec<AffinePoint> x16", |a| hash_of(&vec![aff(a); 16])),
+    ("Vec<AffinePoint> x300", |a| hash_of(&vec![aff(a); 300])),
+    ("(Element, AffinePoint)", |a| hash_of(&(a, aff(a)))),
 ];
+#[cfg(feature = "ark")]
+fn hash_of<T: std::hash::Hash>(x: &T) -> u64 {
+    use std::hash::Hasher;
+    let mut h = std::collections::hash_map::DefaultHasher::new();
+    x.hash(&mut h);
+    h.finish()
+}
 #[cfg(not(feature = "ark"))]
 pub const HASH_FORMS: &[(&str, fn(Element) -> u64)] = &[];
 
@@ -2374,7 +2391,10 @@ fn ctor_suite(m: &mut Machine, r: &mut ChaCha20Rng, n: usize) {
     // batches whose members' internal Z coordinates are RELATED (product 1, sum 0, equal, one the inverse of the other,
     // -1, ...), built with the rescaling hook; every output must be a valid representative of its input
     {
-        let lam = rand_fq(r) + Fq::from(3u64);
+        let lam = {
+            let l = rand_fq(r) + Fq::from(3u64);
+            if l == Fq::ZERO || l == Fq::ONE || l == -Fq::ONE { Fq::from(7u64) } else { l }
+        };
         let li = lam.inverse().unwrap_or(Fq::ONE);
         let scal = |m: &Machine, i: usize, l: Fq| -> Element {
             let c = m.regs[i].verif_raw();
@@ -2416,6 +2436,46 @@ fn ctor_suite(m: &mut Machine, r: &mut ChaCha20Rng, n: usize) {
                     }
                 }
                 load_alphabet(m, r);
+            }
+        }
+    }
+    // LONG batches (around plausible chunk sizes) of un-normalised members
+    for blen in [255usize, 256, 257, 300, 600] {
+        for which in 0..2 {
+            load_alphabet(m, r);
+            let lam0 = rand_fq(r) + Fq::from(5u64);
+            // (sources are registers 0..11; register 13 is the scratch destination of the logged outputs)
+            let srcs: Vec<usize> = (0..blen).map(|j| (j * 5 + 2) % 12).collect();
+            let elems: Vec<Element> = srcs
+                .iter()
+                .enumerate()
+                .map(|(j, i)| {
+                    let c = m.regs[*i].verif_raw();
+                    // (the structured sampler can return -j: a zero scaling would not be a representative at all)
+                    let k0 = lam0 + Fq::from(j as u64);
+                    let k = if k0 == Fq::ZERO { Fq::ONE } else { k0 };
+                    Element::verif_from_raw([c[0] * k, c[1] * k, c[2] * k, c[3] * k])
+                })
+                .collect();
+            let res = guarded(|| {
+                if which == 0 {
+                    Element::normalize_batch(&elems)
+                } else {
+                    use ark_ec::ScalarMul;
+                    Element::batch_convert_to_mul_base(&elems)
+                }
+            });
+            if let Ok(v) = res {
+                for (j, a) in v.iter().enumerate() {
+                    // every member near a chunk boundary, every 16th elsewhere
+                    if !(j % 16 == 0 || (j % 256) < 3 || (j % 256) > 252 || j + 3 > blen) {
+                        continue;
+                    }
+                    let e = el(*a);
+                    emit(m.out, json!({"k":"conv","name":format!("{}[len {}]", if which == 0 { "normalize_batch" } else { "batch_convert_to_mul_base" }, blen),
+                        "a":srcs[j],"dst":13,"rep":rep(&e)}));
+                    m.regs[13] = e;
+                }
             }
         }
     }
